@@ -270,18 +270,21 @@ fn pruned_parent_case(_ctx: &Ctx, case: u64, r: &mut Rng, rep: &mut Report) {
     let rk = h.rk();
     let st = h.uni.state(0);
     let Ok(view) = crate::rawrepo::index_view(&rk, &st) else { return };
-    let data_packs: Vec<Id> = view.packs.iter().filter(|(_, p)| p.blobs.first().is_some_and(|b| b.tpe == "data")).map(|(id, _)| *id).collect();
-    if data_packs.is_empty() {
+    // a data pack (files must be read again) or a tree pack (directories - possibly the root - must be stored again)
+    let want_tree = r.chance(1, 2);
+    let cands: Vec<Id> = view.packs.iter().filter(|(_, p)| p.blobs.first().is_some_and(|b| (b.tpe == "tree") == want_tree)).map(|(id, _)| *id).collect();
+    if cands.is_empty() {
         return;
     }
-    let victim = data_packs[r.usize_below(data_packs.len())];
+    let victim = cands[r.usize_below(cands.len())];
+    rep.count(if want_tree { "parents_with_lost_tree_pack" } else { "parents_with_lost_data_pack" }, 1);
     {
         let mut g = h.uni.lock();
         let _ = g.stores[0].del(FileType::Pack, &victim);
     }
     let _ = Cmd::RepairIndex { read_all: false, dry_run: false }.run(&h.env);
     rep.evaluations += 1;
-    let detail = json!({"config": h.cfg.desc, "lost_pack": victim.to_hex().to_string()});
+    let detail = json!({"config": h.cfg.desc, "lost_pack": victim.to_hex().to_string(), "lost_pack_type": if want_tree { "tree" } else { "data" }});
     // backup again with the (damaged) parent; source unchanged
     match catch(|| h.backup(false)) {
         Err(p) => rep.violation(case, format!("panic:{}", panic_sig(&p)), format!("backup with a partly pruned parent panicked: {p}"), detail),
@@ -312,7 +315,7 @@ fn pruned_parent_case(_ctx: &Ctx, case: u64, r: &mut Rng, rep: &mut Report) {
                 }
                 other => rep.violation(case, "pruned-parent:check-failed", format!("{other:?}"), detail),
             }
-            rep.class("pruned-parent".to_string());
+            rep.class(format!("pruned-parent/{}", if want_tree { "tree-pack" } else { "data-pack" }));
         }
     }
 }
